@@ -377,6 +377,29 @@ DEEP_MUST_THOROUGH = {"default": [4, 64, 512], "fn_nesting_invalid": [2, 6, 10],
 DEEP_DEMO = {"default": [65536], "fn_nesting_invalid": [24], "segments": []}
 
 
+def build_opt0(run):
+    """the same runner built without optimisation (only the `segments` deep probe uses it)"""
+    if getattr(run, "_native_bin0", None):
+        return run._native_bin0
+    if not build(run):
+        return None
+    import fcntl, shutil
+    runner = os.path.join(run.scratch, "native-runner")
+    env = dict(os.environ, CARGO_NET_OFFLINE="true", CARGO_TARGET_DIR=TARGET, RUSTFLAGS="--cfg besok_jsonpath_rust_verif -A unexpected_cfgs -A warnings",
+               CARGO_PROFILE_DEV_OPT_LEVEL="0")
+    with open(os.path.join(TARGET, ".verif-lock"), "w") as lk:
+        fcntl.flock(lk, fcntl.LOCK_EX)
+        p = subprocess.run(["cargo", "build", "--offline", "-q"], cwd=runner, env=env, capture_output=True, text=True)
+        if p.returncode == 0:
+            shutil.copy2(os.path.join(TARGET, "debug", "verif-native-runner"), os.path.join(run.scratch, "verif-native-runner-opt0"))
+        fcntl.flock(lk, fcntl.LOCK_UN)
+    if p.returncode != 0:
+        run.undecided.append("the unoptimised build of the bounded runner failed: " + p.stderr[-300:].replace("\n", " | "))
+        return None
+    run._native_bin0 = os.path.join(run.scratch, "verif-native-runner-opt0")
+    return run._native_bin0
+
+
 def deep_one(binp, pi: int, depth: int):
     import resource
     def lim():
@@ -422,6 +445,26 @@ def run_deep(run, only=None):
             feats = [probe, ("nesting-depth>=4096" if depth >= 4096 else "nesting-depth<=1024") if probe != "fn_nesting_invalid" else ("invalid-function-nesting>=16" if depth >= 16 else "invalid-function-nesting<=10")]
             fails.append({"obligation": ob, "features": feats, "count": 1, "witnesses": [dict(r, probe=probe, depth=depth, qi=pi, di=depth)]})
             break      # deeper probes of the same kind would fail the same way
+    # a long FLAT query (no nesting at all) in an UNOPTIMISED build: the evaluator's walk over the segment list is a fold; written as a
+    # recursion it still passes every optimised build (tail call) and overflows the stack of a debug build, which is what `cargo test` users run
+    if not only or only[0] == DEEP_PROBES.index("segments"):
+        bin0 = build_opt0(run)
+        if bin0:
+            pi = DEEP_PROBES.index("segments")
+            for depth in [1024, 65536] + ([262144] if run.tier == "thorough" else []):
+                if only and only != (pi, depth):
+                    continue
+                r = deep_one(bin0, pi, depth)
+                n += 1
+                rows.append({"probe": "segments (opt-level 0)", "depth": depth, "outcome": r["outcome"], "seconds": r.get("seconds", r.get("wall_s"))})
+                if r["outcome"] == "ok":
+                    continue
+                if r["outcome"] == "undecided":
+                    run.undecided.append(f"deep probe segments (opt-level 0) depth {depth}: {r['detail']}")
+                    continue
+                ob = {"stack_overflow": "deep.no_stack_overflow", "abort": "deep.no_stack_overflow", "cpu_limit": "deep.bounded_time", "panic": "deep.no_panic", "wrong": "deep.result"}[r["outcome"]]
+                fails.append({"obligation": ob, "features": ["segments", "flat-query", "unoptimised-build"], "count": 1, "witnesses": [dict(r, probe="segments", depth=depth, qi=pi, di=depth, build="opt-level 0")]})
+                break
     run.bounded["evaluations"] = run.bounded.get("evaluations", 0) + n
     run.bounded.setdefault("bounded_groups", []).append({"group": "deep", "evaluations": n, "obligations": ["deep.no_stack_overflow", "deep.bounded_time", "deep.no_panic", "deep.result"],
         "bound": f"one process per probe, 8 MiB stack, {DEEP_CPU_S} s CPU limit; nesting depths {DEEP_MUST} must hold, {DEEP_DEMO} demonstrate the recorded findings", "rows": rows})
